@@ -34,6 +34,7 @@ class Part:
         self.vkeys = {}             # key -> count
         self.exhaustive = True
         self.notes = []
+        self.reach = {}
 
     def count(self, name, n=1):
         self.counters[name] = self.counters.get(name, 0) + n
@@ -54,7 +55,7 @@ class Part:
         with open(path, "w") as f:
             json.dump({"evaluations": self.evaluations, "distinct": sorted(self.distinct), "samples": self.samples,
                        "counters": self.counters, "violations": self.violations, "vkeys": self.vkeys,
-                       "exhaustive": self.exhaustive, "notes": self.notes}, f, default=_js)
+                       "exhaustive": self.exhaustive, "notes": self.notes, "reach": self.reach}, f, default=_js)
 
 
 def _js(o):
@@ -105,10 +106,13 @@ def shard_main(pid, spec_path, out_path):
     import logging
     logging.disable(logging.CRITICAL)     # the library logs every retry / decode error; keep the shard's output small
     env.ensure_deps()
+    from . import reach
+    reach.start()           # before goodwe is imported, so that import-time lines count as reached
     env.goodwe()
     mod = load_check(pid)
     spec = json.load(open(spec_path))
     part = mod.run_shard(spec)
+    part.reach = reach.hits()
     part.dump(out_path)
     return 0
 
@@ -177,6 +181,27 @@ def run_check(pid: str, tier: str) -> int:
             vkeys[k] = vkeys.get(k, 0) + v
         exhaustive = exhaustive and r["exhaustive"]
         notes.extend(r.get("notes", []))
+    # line reach inside the anchor files of the property
+    reached = {}
+    for r in results.values():
+        for f, ls in (r.get("reach") or {}).items():
+            reached.setdefault(f, set()).update(ls)
+    reach_summary = {}
+    try:
+        from . import reach as _reach
+        anchors = set()
+        for line in open(os.path.join(env.VERIF, "properties.jsonl")):
+            pr = json.loads(line)
+            if pr["id"] == pid:
+                anchors = {os.path.basename(x) for x in pr["anchors"]["files"]}
+        ex = _reach.executable_lines()
+        for f in sorted(anchors):
+            if f in ex:
+                hit = reached.get(f, set()) & set(ex[f])
+                reach_summary[f] = {"executable_lines": len(ex[f]), "reached": len(hit),
+                                    "unreached_sample": [l for l in ex[f] if l not in hit][:25]}
+    except Exception as e:      # noqa
+        reach_summary = {"error": repr(e)}
     for m in getattr(mod, "MUST", []):
         if counters.get(m, 0) <= 0:
             inconclusive.append(f"must-observe counter '{m}' is zero: the deciding monitor was never reached")
@@ -218,6 +243,7 @@ def run_check(pid: str, tier: str) -> int:
         "inconclusive_reasons": inconclusive,
         "known_findings_matched": {k: v[1] for k, v in known_hits.items()},
         "violation_keys": new_keys,
+        "anchor_file_line_reach": reach_summary,
         "code_under_test": env.repo_state(),
         "notes": notes[:10],
     }
